@@ -21,9 +21,9 @@ def run(fw):
         m = fw.build_model(name, H, [root], defines=defs)
         us = fw.unwindset(m, root, vfw.std_rules(string=20))
         lab = '%s[symbolic: %s%s]' % (root, GROUPS.get(g, 'all attributes'), ', with equivalence' if extra else '')
-        r = fw.cbmc(m, root, unwind=6, unwindset=us, timeout=900 if not extra else 3000, label=lab, symbolic=GROUPS.get(g, 'all attributes'))
+        r = fw.cbmc(m, root, unwind=6, unwindset=us, timeout=900 if not extra else 1500, label=lab, symbolic=GROUPS.get(g, 'all attributes'))
         fw.log(lab, r['status'], r['wall'], [(f['msg'], f['inputs']) for f in r['failed']][:4])
-        fw.handle(r, H, defs, best_effort=bool(extra))
+        fw.handle(r, H, defs, best_effort=bool(extra) or (root == 'h_clone_model' and g == 0))
         if not extra and g in (0, 3, 4):
             mw = fw.build_model(name + 'w', H, [root], defines=defs + ['WITNESS'])
             fw.witness(mw, root, unwind=6, unwindset=us, timeout=900, label='witness:' + lab)
